@@ -108,6 +108,8 @@ pub struct World {
     pub ev_idx: usize,
     /// running hash of every output the real code produced (C18 compares it across executions)
     pub tx: crate::util::Fnv,
+    /// C16: fewest AeadNonce drops seen during a successful open, per opening interface
+    pub nonce_drops_ok: [Option<u64>; 2],
 }
 
 pub type V = Result<(), Violation>;
@@ -154,7 +156,7 @@ fn out_class<T>(r: &Result<T, Fail>) -> String {
 
 impl World {
     pub fn new(p: P) -> World {
-        World { p, keys: vec![], scs: vec![], rcs: vec![], idents: vec![], recs: vec![], ev_idx: 0, tx: crate::util::Fnv::new() }
+        World { p, keys: vec![], scs: vec![], rcs: vec![], idents: vec![], recs: vec![], ev_idx: 0, tx: crate::util::Fnv::new(), nonce_drops_ok: [None, None] }
     }
 
     pub fn viol(&self, inv: &str, expected: String, observed: String) -> Violation {
